@@ -11,10 +11,13 @@ from checks import enginelib as E
 from checks.enginelib import charts, shrink
 
 THEOREMS = [
+    ("UscxmlVerif.Properties.C01.selection_conflict_free_w3c", "proved", "PARTIAL (pre-emption, in Appendix D's terms): on every coherent chart numbered in pre-order (decidable hypotheses, evaluated on the generated charts: suite theorem-hypotheses), any two distinct transitions of real states with real targets that LargeMicroStep selects have disjoint exit sets (Appendix D computeExitSet) in every configuration of real states - the selected set is conflict-free as removeConflictingTransitions demands"),
+    ("UscxmlVerif.Proofs.Interval.large_domain_eq", "proved", "the engine's transition domain (LargeMicroStep::getTransitionDomain as modelled) is Predicates.cpp's and Appendix D's on coherent charts"),
+    ("UscxmlVerif.Proofs.Interval.disjoint_of_not_overlaps", "proved", "exit intervals that do not overlap are disjoint Appendix D exit sets"),
     ("UscxmlVerif.Properties.C01.selection_conflict_free_partial", "proved", "PARTIAL (pre-emption only): for every chart, configuration, event and condition outcome the set of transitions LargeMicroStep selects holds no two distinct transitions with overlapping exit-set intervals. That the step as a whole is Appendix D's is decided by exploration (I = M = S on generated charts)"),
 ]
 FINISH = {"level": "exploration"}   # the refinement Large ⊑ Appendix D is not proved
-LEAN_FILES = ["UscxmlVerif.Properties.C01", "UscxmlVerif.Proofs.Select"]
+LEAN_FILES = ["UscxmlVerif.Properties.C01", "UscxmlVerif.Proofs.Select", "UscxmlVerif.Proofs.Interval", "UscxmlVerif.Proofs.Struct"]
 SUITE = "trace-large"
 
 
@@ -155,12 +158,14 @@ def run(ctx):
     # the same algorithm with a scripting datamodel: variables, assignments, conditions on data
     cases = E.gen_cases(ctx.rng, 1000 if quick else 20000, nvars=2, dm="lua")
     st, br = run_cases(ctx, "random-lua", cases, dm="lua", nvars=2); broken += br
+    E.hypotheses(ctx, "theorem-hypotheses", [d for d, _ in cases] + [d for d, _ in ex[:3000]])
     if broken and not ctx.violations:
         d, evs = broken[0]
         ctx.violation("correspondence", SUITE, [E.case_line("large", d, evs)], found_input=False,
                       detail="correspondence %s broken on %d inputs (interpreter and Model.Large differ) but the interpreter still conforms to Appendix D on all of them; first: %s %s" % (SUITE, len(broken), charts.sexpr(d), evs))
     tot = {}
-    for s in ctx.coverage["suites"].values():
+    for name, s in ctx.coverage["suites"].items():
+        if name == "theorem-hypotheses": continue
         for k, v in s.items(): tot[k] = tot.get(k, 0) + v
     ctx.coverage["evaluations"] = tot.get("inputs", 0)
     ctx.coverage["distinct_nontrivial"] = tot.get("inputs", 0) - tot.get("diverging", 0)
